@@ -95,7 +95,10 @@ constexpr bool is_perfect_square(uint64_t n) {
     uint64_t prev = n / 2u;
     while (true) {
         const uint64_t curr = (prev + n / prev) / 2u;
-        if (curr * curr == n) {
+
+        // Do not compare `curr * curr == n`: for early (large) values of `curr`, the product wraps
+        // around modulo 2^64, and can land exactly on a non-square `n`.
+        if ((n / curr == curr) && (n % curr == 0u)) {
             return true;
         }
         if (curr >= prev) {
